@@ -1021,6 +1021,20 @@ inline J plan_c17(uint64_t verif_seed, uint64_t index, int tier) {
         }
         if (again) des.push(now + delay, ev.actor);
     }
+    // the OASIS shortcut: precision query against the full OASIS load of the same library
+    if (ro.chance(0.3) && source != 2) {
+        J so = op("save_oas");
+        so.set("model", 0);
+        so.set("file", "/sim/q.oas");
+        Rng r2 = ro.fork(81);
+        oas_options(r2, so);
+        ops.push(so);
+        J q = op("oas_precision");
+        q.set("file", "/sim/q.oas");
+        q.set("repeat", 1);
+        q.set("against_full_load", true);
+        ops.push(q);
+    }
     // closing full load: whatever happened, F still loads to the same layout
     {
         J l = op("load_check");
